@@ -101,9 +101,10 @@ class C07(Engine):
         idx = 700_000
         for fid in P.groups.get("gen", []):
             f = P.files[fid]
-            if not f["name"].endswith(".c"):
-                continue
-            for k, fop in enumerate(("label_last", "control_last", "label_body", "comment_run", "label_line", "nest_body", "nest_body")):
+            for k, fop in enumerate(("label_last", "control_last", "label_body", "comment_run", "label_line", "nest_body", "nest_body", "type_end_declarator")):
+                if not f["name"].endswith(".c") and fop != "type_end_declarator":
+                    idx += 1
+                    continue
                 r = core.derive_rng("c07.struct", self.seed, idx)
                 c2, op = gen_violating(r, f["name"], f["content"], force_op=fop)
                 if c2 != f["content"]:
@@ -111,6 +112,27 @@ class C07(Engine):
                                 "files": {"x": {"name": f["name"], "content": c2, "origin": f"{P.meta[fid]['origin']}+{op}"}},
                                 "ops": [{"op": "api", "file": "x"}]}
                 idx += 1
+        # A4. statements nested beyond what the interpreter's stack takes, alone and right after a stray closer: whatever the engine
+        #     does about the overflow, no statement is examined twice and no unrecognised text is forgotten
+        idx = 900_000
+        from ..workload import ok_func
+        for n in ((1500,) if q else (400, 1100, 1500, 4000)):
+            for k, body in enumerate((f"\treturn ({'(' * n}0{')' * n});\n", f"\ta = {'(' * n}1{')' * n};\n\treturn (a);\n",
+                                      f"\tif ({'(' * n}a{')' * n})\n\t\treturn (1);\n\treturn (0);\n",
+                                      "\treturn (" + "(\\\n" * n + "0" + ")" * n + ");\n")):
+                for pre in ("", ")\n", "\t) ", "]\n"):
+                    content = ok_func("deep.c", body=pre + body)
+                    sc = {"kind": "free" if not pre else "garbage", "fault": "structure_variant" if not pre else "garbage_nl_kept", "generated": False,
+                          "count_known": False, "nstmts": None, "family": False, "desc": f"deep({n},{k},{pre!r})", "prev": "lbrace", "frag": pre.strip(),
+                          "nl": pre.endswith("\n"), "at_eof": False,
+                          "files": {"x": {"name": "deep.c", "content": content, "origin": f"deep:{n}:{k}"}}}
+                    if pre:
+                        sc["tree"] = {"deep.c": "@x"}
+                        sc["ops"] = [{"op": "cli", "argv": ["--no-colors", "deep.c"]}]
+                    else:
+                        sc["ops"] = [{"op": "api", "file": "x"}]
+                    yield idx, sc
+                    idx += 1
         # B. garbage at every statement boundary (CLI level, default options)
         groups = ("gen", "special_clean", "special_notice", "corpus_headed", "viol", "special_erroneous")
         bases = []
@@ -255,6 +277,10 @@ class C07(Engine):
     # ---- invariants ---------------------------------------------------------------------------------
     def check_I1(self, o, where):
         vs = []
+        if o.get("repeats"):
+            r0 = o["repeats"][0]
+            vs.append(Violation(self.prop, "C07.I1-examined-once", f"{r0[0]} was run twice on the same statement",
+                                {"where": where, "tokens_left": r0[1], "repeats": o["repeats"]}))
         pops = o.get("pops") or []
         n = o.get("ntokens")
         prev_after = n
